@@ -170,14 +170,13 @@ def ob_e(ob):
 
 
 # ---- shared obligation: an unrestricted singlet reproduces the restricted answer (and a molecule its stand-alone answer) only if each spin block is diagonalised with the orbital layout of its own molecule ----
-from . import C03 as _C03_mod  # noqa: E402
-
-
-@obligation(PID, "f", title="[shared with C03.e] " + [e for e in __import__("engine.ob", fromlist=["REGISTRY"]).REGISTRY["C03"] if e[1] is _C03_mod.ob_e][0][3])
+@obligation(PID, "f", title='[shared with C03.e] sym_eig_trunc: every matrix handed to the eigen-solver is the physical block of its own molecule (and spin), padded diagonal entries lie above every Gershgorin disc of that block, are pairwise distinct, and the padding block is decoupled — restricted batches and unrestricted (alpha/beta) batches of heterogeneous molecules')
 def ob_f_shared(ob):
     """an unrestricted singlet reproduces the restricted answer (and a molecule its stand-alone answer) only if each spin block is diagonalised with the orbital layout of its own molecule"""
+    from . import C03 as _m  # imported lazily: the harness modules share obligations in both directions
+
     ob.note("this obligation is the one registered as C03.e; it is also decided here because an unrestricted singlet reproduces the restricted answer (and a molecule its stand-alone answer) only if each spin block is diagonalised with the orbital layout of its own molecule")
-    _C03_mod.ob_e(ob)
+    _m.ob_e(ob)
 
 
 def replay_scf_bookkeeping(driver, c0, c1, c2):
@@ -195,12 +194,13 @@ def ob_g(ob):
     from engine import chrun
 
     ob.encodes(SL.scf_forward0, SL.scf_forward1, SL.scf_forward2)
-    ob.bound("batch of 3 molecules; the iteration at which each molecule converges is a symbolic int in [1,6] (every relative order, ties, and one molecule never converging within the iteration cap of 8 for Pulay's longer start-up); three drivers")
+    ob.bound("batch of 3 molecules; the iteration at which each molecule converges is a symbolic int in [1,6] (thorough: [1,9], iteration cap 11) (every relative order, ties, and one molecule never converging within the iteration cap of 8 for Pulay's longer start-up); three drivers")
     ob.assume("Fock build, density step and convergence test are recorders; the DIIS linear algebra of the Pulay driver runs for real on the recorder's matrices")
     pre = "from harness import scfsim as X\n"
     slices = []
+    hi = 6 if ob.tier != "thorough" else 9
     for drv in (0, 1, 2):
-        sl = chrun.Slice("S%d" % drv, pre, "c0: int, c1: int, c2: int", "1 <= c0 <= 6 and 1 <= c1 <= 6 and 1 <= c2 <= 6", "return X.bookkeeping_violations(%d, c0, c1, c2) == []" % drv, "_", 300)
+        sl = chrun.Slice("S%d" % drv, pre, "c0: int, c1: int, c2: int", "1 <= c0 <= %d and 1 <= c1 <= %d and 1 <= c2 <= %d" % (hi, hi, hi), "return X.bookkeeping_violations(%d, c0, c1, c2, %d) == []" % (drv, hi + 2), "_", 300 if hi == 6 else 1200)
         sl.meta = dict(driver=drv)
         slices.append(sl)
     tw = chrun.Slice("twin_scf", pre, "c0: int, c1: int, c2: int", "1 <= c0 <= 6 and 1 <= c1 <= 6 and 1 <= c2 <= 6", "return X.bookkeeping_violations(2, c0, c1, c2) == [] and not (c0 == 2 and c1 == 5 and c2 == 3)", "_", 300)
